@@ -113,6 +113,8 @@ def expand_like(deck):
             if key == 'imp_groups':
                 continue
             out[key] = copy.deepcopy(val)
+        if out.get('mat') == 0:
+            out['rho'] = None       # MAT=0: the copy is void
         by_id[c['id']] = out
         return out
 
